@@ -74,6 +74,9 @@ func (l Lin) sameTerms(o Lin) bool {
 
 func (l Lin) isConst() bool { return len(l.T) == 0 }
 
+// globalConstLen: lengths of package-level []byte variables initialised from literals (set by the loader).
+var globalConstLen = map[string]int64{}
+
 // Normaliser options.
 type linOpts struct {
 	pathLoads bool // key loads of parameter field chains by access path (caller checks no intervening store)
@@ -391,6 +394,32 @@ func (e *linEnv) norm1(v ssa.Value) Lin {
 			if c, ok := a.Call.Args[0].(*ssa.Const); ok && c.Value != nil && c.Value.Kind() == constant.String {
 				return linConst(int64(len(constant.StringVal(c.Value))))
 			}
+			// len of a package-level []byte initialised from a literal and never written (C04-I1)
+			if u, ok := a.Call.Args[0].(*ssa.UnOp); ok && u.Op == token.MUL {
+				if g, ok := u.X.(*ssa.Global); ok {
+					if n, ok := globalConstLen[g.Name()]; ok {
+						return linConst(n)
+					}
+				}
+			}
+			// len(x[lo:hi]) = hi - lo
+			if sl, ok := a.Call.Args[0].(*ssa.Slice); ok {
+				if _, isStr := sl.X.Type().Underlying().(*types.Pointer); !isStr {
+					var hi Lin
+					if sl.High != nil {
+						hi = e.norm(sl.High)
+					} else {
+						hi = Lin{T: map[string]int64{"len(" + e.sliceKey(sl.X) + ")": 1}}
+						if c, ok := sl.X.(*ssa.Const); ok && c.Value != nil && c.Value.Kind() == constant.String {
+							hi = linConst(int64(len(constant.StringVal(c.Value))))
+						}
+					}
+					if sl.Low != nil {
+						return hi.add(e.norm(sl.Low), -1)
+					}
+					return hi
+				}
+			}
 			// len of an array (pointer to array)
 			t := a.Call.Args[0].Type().Underlying()
 			if pt, ok := t.(*types.Pointer); ok {
@@ -415,6 +444,19 @@ type Fact struct {
 // only predecessor of S).
 func (e *linEnv) factsAt(b *ssa.BasicBlock) []Fact {
 	var out []Fact
+	// axioms: r := bytes.IndexByte(s, c) gives r <= len(s)-1 (and r >= -1)
+	for cur := b; cur != nil; cur = cur.Idom() {
+		for _, ins := range cur.Instrs {
+			call, ok := ins.(*ssa.Call)
+			if !ok {
+				continue
+			}
+			if cal := call.Call.StaticCallee(); cal != nil && cal.Pkg != nil && cal.Pkg.Pkg.Path() == "bytes" && cal.Name() == "IndexByte" {
+				r := e.norm(call)
+				out = append(out, Fact{r.add(e.lenLinOfValue(call.Call.Args[0]), -1).add(linConst(1), 1), "bytes.IndexByte result < len(arg)"})
+			}
+		}
+	}
 	for cur := b; cur != nil; cur = cur.Idom() {
 		d := cur.Idom()
 		if d == nil {
@@ -436,6 +478,20 @@ func (e *linEnv) factsAt(b *ssa.BasicBlock) []Fact {
 // condFacts turns `cond == truth` into linear facts.
 func (e *linEnv) condFacts(cond ssa.Value, truth bool) []Fact {
 	switch c := cond.(type) {
+	case *ssa.Extract:
+		// trusted summary: l, ok := bytescase.Prefix(p, s); ok  =>  l == len(p)
+		if call, isCall := c.Tuple.(*ssa.Call); isCall && truth && c.Index == 1 {
+			if cal := call.Call.StaticCallee(); cal != nil && cal.Pkg != nil && cal.Pkg.Pkg.Name() == "bytescase" && cal.Name() == "Prefix" {
+				for _, r := range *call.Referrers() {
+					if ex, ok := r.(*ssa.Extract); ok && ex.Index == 0 {
+						l := e.norm(ex)
+						pl := e.lenLin(call.Call.Args[0])
+						src := "Prefix matched => its length result == len(prefix)"
+						return []Fact{{l.add(pl, -1), src}, {pl.add(l, -1), src}}
+					}
+				}
+			}
+		}
 	case *ssa.UnOp:
 		if c.Op == token.NOT {
 			return e.condFacts(c.X, !truth)
@@ -499,15 +555,32 @@ func entails(facts []Fact, goal Lin) (bool, string) {
 			return true, f.Src
 		}
 	}
-	// two-fact chaining: goal = f1 + f2 (terms add up), constants permitting
+	// non-negative combinations a*f1 + b*f2 (+ f3): a sum of valid facts is a valid fact
 	for i, f1 := range facts {
 		for j, f2 := range facts {
-			if j <= i {
+			if j == i {
 				continue
 			}
-			s := f1.L.add(f2.L, 1)
-			if s.sameTerms(goal) && goal.C <= s.C {
-				return true, f1.Src + " && " + f2.Src
+			for _, ab := range [][2]int64{{1, 1}, {2, 1}, {1, 2}} {
+				if j < i && ab[0] == ab[1] {
+					continue
+				}
+				s := f1.L.scale(ab[0]).add(f2.L.scale(ab[1]), 1)
+				if s.sameTerms(goal) && goal.C <= s.C {
+					return true, f1.Src + " && " + f2.Src
+				}
+				if ab[0] != 1 || ab[1] != 1 || j < i {
+					continue
+				}
+				for k, f3 := range facts {
+					if k <= j {
+						continue
+					}
+					s3 := s.add(f3.L, 1)
+					if s3.sameTerms(goal) && goal.C <= s3.C {
+						return true, f1.Src + " && " + f2.Src + " && " + f3.Src
+					}
+				}
 			}
 		}
 	}
@@ -523,4 +596,39 @@ func nonNegValue(v ssa.Value) bool {
 	}
 	_, uns := intBits(v.Type())
 	return uns
+}
+
+// lenLin: linear form of len(v) for a slice/string value v.
+func (e *linEnv) lenLin(v ssa.Value) Lin {
+	if u, ok := v.(*ssa.UnOp); ok && u.Op == token.MUL {
+		if g, ok := u.X.(*ssa.Global); ok {
+			if n, ok := globalConstLen[g.Name()]; ok {
+				return linConst(n)
+			}
+		}
+	}
+	if c, ok := v.(*ssa.Const); ok && c.Value != nil && c.Value.Kind() == constant.String {
+		return linConst(int64(len(constant.StringVal(c.Value))))
+	}
+	if n := staticLen(v); n >= 0 {
+		return linConst(n)
+	}
+	return Lin{T: map[string]int64{"len(" + e.sliceKey(v) + ")": 1}}
+}
+
+// lenLinOfValue: like lenLin but also sees through x[lo:hi].
+func (e *linEnv) lenLinOfValue(v ssa.Value) Lin {
+	if sl, ok := v.(*ssa.Slice); ok {
+		var hi Lin
+		if sl.High != nil {
+			hi = e.norm(sl.High)
+		} else {
+			hi = e.lenLin(sl.X)
+		}
+		if sl.Low != nil {
+			return hi.add(e.norm(sl.Low), -1)
+		}
+		return hi
+	}
+	return e.lenLin(v)
 }
